@@ -68,6 +68,11 @@ class Contract(object):
         # native check (labelled bounded, never counted as proved).
         # each: dict(name=..., cond=fn(params)->bool, clauses=[...], gen=fn(seed, tier)->iter of arg dicts)
         self.gaps = list(d.get('gaps', []))
+        # post_hints: lemma instances over (params, result, g_* ghost variables) assumed when an
+        # ensures clause is checked at a return
+        self.post_hints = list(d.get('post_hints', []))
+        for src in self.post_hints:
+            _check_ghost(src, target)
         self.variants = list(d.get('variants', []))   # extra units with some params fixed (e.g. prec=None)
         self.none_as = dict(d.get('none_as', {}))     # at call sites: param given as None means this value
         self.sig = inspect.signature(self.func)
